@@ -37,6 +37,13 @@ INSTR_AUTO = ("FunctorPool.*", "FactoryFunctorPool.*", "CMThread.*")
 
 
 def gen_base(rng, tier, index):
+    if index == 12 or (tier == "thorough" and index % 40 == 12):
+        # an input that pauses for seconds (longer than any plausible idle timeout of a worker), workers started through a
+        # fork server or spawned (their OS parent is not the process that created them)
+        gap = 3.6 if tier == "quick" else rng.choice([3.6, 6.5, 11.0])
+        return {"pool": "factory" if index % 80 >= 40 else "functor", "workers": 2, "wq": 1.0, "rq": None, "quota": 2 if index % 80 >= 40 else None,
+                "no_sweep": True, "limit_factor": 3, "start": "forkserver" if index % 3 else "spawn",
+                "calls": [{"ordered": index % 2 == 0, "n": 4, "chunk": 1, "form": "slow", "slow": {"before": {"2": gap}, "stop": gap}}]}
     workers = rng.choice([1, 2, 2, 3, 4])
     chunk = rng.choice([1, 1, 2, 3, 4])
     k = rng.randint(1, 6)
